@@ -166,7 +166,7 @@ Proof.
     end; cbn [enc]; rewrite ?enc_fix_eq; try reflexivity.
   - destruct Hd as [_ Hvs]. now rewrite !enc_bool_id.
   - destruct Hd as [_ [_ [_ Hd]]]. cbn [wf_ty] in Hwt. f_equal. eapply IH; eassumption.
-  - destruct Hd as [_ [_ Hd]]. cbn [wf_ty] in Hwt. apply andb_true_iff in Hwt as [Hwt _]. f_equal. eapply IH; eassumption.
+  - destruct Hd as [_ [_ Hd]]. cbn [wf_ty] in Hwt. f_equal. eapply IH; eassumption.
   - destruct Hd as [_ [Hty Hp]]. cbn [wf_ty] in Hwt. apply andb_true_iff in Hwt as [Hwt Hlc].
     destruct vals; [reflexivity|].
     cbn [prepare] in Hp.
